@@ -281,6 +281,20 @@ func c04Gen(g *G) {
 			}
 			c04Emit(g, b.keyTok, b.pkt[:cut], "refuse", 12, "truncate", fmt.Sprintf("truncate-mod16=%d", cut%16))
 		}
+		// (2b) history: the deserialiser must be a function of the packet alone. Deliver the valid packet and
+		// straight afterwards a block-aligned truncation / a bit flip of it (state left behind by the
+		// accepted packet — a reused buffer, a cached digest — must not help the altered one through)
+		for cut := 24; cut < n; cut += 16 {
+			if !th && n > 200 && cut > 24+64 && r.Intn(4) != 0 {
+				continue
+			}
+			g.Emit(fmt.Sprintf("c04.open %s %s %s", b.keyTok, hexD(b.pkt), okExp), "valid", "history-prime")
+			g.Emit(fmt.Sprintf("c04.open %s %s refuse", b.keyTok, hexD(b.pkt[:cut])), "truncate", "history-truncate-after-delivery")
+		}
+		for i := 0; i < 8; i++ {
+			g.Emit(fmt.Sprintf("c04.open %s %s %s", b.keyTok, hexD(b.pkt), okExp), "valid", "history-prime")
+			g.Emit(fmt.Sprintf("c04.open %s %s refuse", b.keyTok, hexD(c04Flip(b.pkt, r.Intn(24*8)))), "bitflip", "history-flip-after-delivery")
+		}
 		for _, extra := range []int{1, 4, 8, 15, 17} {
 			c04Emit(g, b.keyTok, append(append([]byte{}, b.pkt...), r.Bytes(extra)...), "refuse", 3, "extend-unaligned")
 		}
